@@ -5,6 +5,7 @@ CONSTANTS
   BinOps = {"add"}
   UnOps = {"neg"}
   WithStubFacts = TRUE
+  Fixed = {}
   WithGetattr = FALSE
   BugNoReflected = FALSE
 INVARIANT DiagnosedIffRaisesStrict
